@@ -210,12 +210,38 @@ fn panic_kind(p: &crate::kernel::worker::PanicRecord) -> (String, String) {
 
 /// Execute a history on a table using allocator `alloc`. `calls` reports the allocator's call
 /// counter (0 for allocators that do not count), `fired` how many injected failures fired so far.
-pub fn run_history<A: Allocator + Clone>(
+/// value types the histories are run with
+pub trait Val: Clone {
+    fn make(log: &Rc<DropLog>, tag: u64) -> Self;
+    fn tag(&self) -> u64;
+}
+impl Val for Tracked {
+    fn make(log: &Rc<DropLog>, tag: u64) -> Self {
+        log.make(tag)
+    }
+    fn tag(&self) -> u64 {
+        self.tag
+    }
+}
+/// a value without drop glue (std::mem::needs_drop is false), like the handles, labels and
+/// variable ids the compiler and the VM keep in their tables
+#[derive(Clone, Copy)]
+pub struct Plain(pub u64);
+impl Val for Plain {
+    fn make(_log: &Rc<DropLog>, tag: u64) -> Self {
+        Plain(tag)
+    }
+    fn tag(&self) -> u64 {
+        self.0
+    }
+}
+
+pub fn run_history<V: Val, A: Allocator + Clone>(
     h: &History,
     alloc: A,
     calls: &dyn Fn() -> u64,
     fired: &dyn Fn() -> u64,
-    index_fn: Option<&dyn Fn(&HandleTable<Tracked, A>, Handle) -> u64>,
+    index_fn: Option<&dyn Fn(&HandleTable<V, A>, Handle) -> u64>,
 ) -> RunInfo {
     let mut info = RunInfo::default();
     let log = Rc::new(DropLog::default());
@@ -254,7 +280,7 @@ pub fn run_history<A: Allocator + Clone>(
     // construction
     let c0 = calls();
     let f0 = fired();
-    let built = catch(|| HandleTable::<Tracked, A>::with_capacity(h.init_cap, alloc.clone()));
+    let built = catch(|| HandleTable::<V, A>::with_capacity(h.init_cap, alloc.clone()));
     info.alloc_ranges.push((c0, calls()));
     let mut table = match built {
         Err(p) => {
@@ -283,10 +309,10 @@ pub fn run_history<A: Allocator + Clone>(
         // the operation itself, isolated
         let r: Result<Result<(), (String, String)>, _> = catch(|| -> Result<(), (String, String)> {
             match op {
-                Op::Insert(k, tag) => match table.insert(handle(*k), log.make(*tag)) {
+                Op::Insert(k, tag) => match table.insert(handle(*k), V::make(&log, *tag)) {
                     Ok(r) => {
-                        if r.tag != *tag {
-                            return Err(("stale-value".into(), format!("insert returned tag {}", r.tag)));
+                        if r.tag() != *tag {
+                            return Err(("stale-value".into(), format!("insert returned tag {}", r.tag())));
                         }
                         model.insert(*k, *tag);
                     }
@@ -295,7 +321,7 @@ pub fn run_history<A: Allocator + Clone>(
                     }
                     Err(e) => return Err(("unexpected-error".into(), format!("{e:?}"))),
                 },
-                Op::InsertZero => match table.insert(handle(0), log.make(0)) {
+                Op::InsertZero => match table.insert(handle(0), V::make(&log, 0)) {
                     Err(MapError::InvalidHandle) => {}
                     Err(MapError::AllocError(_)) if fired() > f0 => {
                         info.failed_ops += 1;
@@ -306,7 +332,7 @@ pub fn run_history<A: Allocator + Clone>(
                 Op::Remove(k) => {
                     let got = table.remove(handle(*k));
                     let want = model.remove(k);
-                    let got_tag = got.as_ref().map(|t| t.tag);
+                    let got_tag = got.as_ref().map(|t| t.tag());
                     drop(got);
                     if got_tag != want {
                         let d = match (got_tag, want) {
@@ -321,7 +347,7 @@ pub fn run_history<A: Allocator + Clone>(
                     }
                 }
                 Op::Get(k) => {
-                    let got = table.get(handle(*k)).map(|t| t.tag);
+                    let got = table.get(handle(*k)).map(|t| t.tag());
                     let want = model.get(k).copied();
                     if got != want {
                         let d = match (got, want) {
@@ -336,11 +362,11 @@ pub fn run_history<A: Allocator + Clone>(
                     let want = model.get(k).copied();
                     match table.get_mut(handle(*k)) {
                         Some(r) => {
-                            if Some(r.tag) != want {
+                            if Some(r.tag()) != want {
                                 let d = if want.is_none() { "phantom-handle" } else { "stale-value" };
-                                return Err((d.into(), format!("get_mut({k}) got {} want {want:?}", r.tag)));
+                                return Err((d.into(), format!("get_mut({k}) got {} want {want:?}", r.tag())));
                             }
-                            *r = log.make(*tag);
+                            *r = V::make(&log, *tag);
                             model.insert(*k, *tag);
                         }
                         None => {
@@ -359,7 +385,7 @@ pub fn run_history<A: Allocator + Clone>(
                 }
                 Op::Entry(k, tag) => {
                     let want = model.get(k).copied().unwrap_or(*tag);
-                    let got = table.entry(handle(*k)).or_insert_with(|| log.make(*tag)).tag;
+                    let got = table.entry(handle(*k)).or_insert_with(|| V::make(&log, *tag)).tag();
                     model.entry(*k).or_insert(*tag);
                     if got != want {
                         return Err(("stale-value".into(), format!("entry({k}) got {got} want {want}")));
@@ -382,7 +408,7 @@ pub fn run_history<A: Allocator + Clone>(
                     drop(old);
                 }
                 Op::Iter => {
-                    let mut got: Vec<(u32, u64)> = table.iter().map(|(h, t)| (raw_of(h), t.tag)).collect();
+                    let mut got: Vec<(u32, u64)> = table.iter().map(|(h, t)| (raw_of(h), t.tag())).collect();
                     got.sort();
                     let want: Vec<(u32, u64)> = model.iter().map(|(k, v)| (*k, *v)).collect();
                     if got != want {
@@ -424,7 +450,7 @@ pub fn run_history<A: Allocator + Clone>(
                 return Err(("len".into(), format!("len {} want {}", table.len(), model.len())));
             }
             for k in pool.iter() {
-                let got = table.get(handle(*k)).map(|t| t.tag);
+                let got = table.get(handle(*k)).map(|t| t.tag());
                 let want = model.get(k).copied();
                 if got != want {
                     let d = match (got, want) {
@@ -501,9 +527,34 @@ fn run_fault(h: &History, fail_at: Option<u64>) -> (RunInfo, Vec<String>, u64, u
     fa.fail_at(fail_at);
     let fa_calls = fa.clone();
     let fa_fired = fa.clone();
-    let info = run_history(h, fa.clone(), &move || fa_calls.calls(), &move || fa_fired.fired(), None);
+    let info = run_history::<Tracked, _>(h, fa.clone(), &move || fa_calls.calls(), &move || fa_fired.fired(), None);
     let errs = fa.take_errors();
     (info, errs, fa.fired(), fa.outstanding())
+}
+
+/// the same history with a value type without drop glue, on the counting allocator, no fault
+fn first_fail_plain(h: &History) -> Option<(Value, String)> {
+    let fa = FaultAlloc::new();
+    let info = run_history::<Plain, _>(h, fa.clone(), &|| 0, &|| 0, None);
+    if let Some(f) = &info.fail {
+        let mut sig = sig_of(f, h.init_cap, false);
+        sig["value_type"] = json!("plain");
+        return Some((sig, format!("(values without drop glue) {} #{}: {} ({})", f.op, f.op_index, f.diverged, f.detail)));
+    }
+    if let Some(e) = fa.take_errors().first() {
+        let kind = e.split(' ').next().unwrap_or("").to_string();
+        return Some((
+            json!({"op":"ledger","diverged":kind,"init_cap":cap_class(h.init_cap),"fault":false,"site":"","value_type":"plain"}),
+            format!("(values without drop glue) allocation ledger: {e}"),
+        ));
+    }
+    if fa.outstanding() != 0 {
+        return Some((
+            json!({"op":"ledger","diverged":"leaked-block","init_cap":cap_class(h.init_cap),"fault":false,"site":"","value_type":"plain"}),
+            format!("(values without drop glue) {} block(s) never released", fa.outstanding()),
+        ));
+    }
+    None
 }
 
 fn first_fail_fault(h: &History, fail_at: Option<u64>) -> Option<(Value, String)> {
@@ -528,7 +579,8 @@ fn first_fail_fault(h: &History, fail_at: Option<u64>) -> Option<(Value, String)
 }
 
 /// greedy one-at-a-time removal of operations while the same signature persists
-fn shrink(h: &History, fail_at: Option<u64>, sig: &Value) -> History {
+fn shrink(h: &History, fail_at: Option<u64>, sig: &Value, plain: bool) -> History {
+    let first_fail = |c: &History| if plain { first_fail_plain(c) } else { first_fail_fault(c, fail_at) };
     let mut cur = h.clone();
     loop {
         let mut changed = false;
@@ -541,7 +593,7 @@ fn shrink(h: &History, fail_at: Option<u64>, sig: &Value) -> History {
             }
             let mut cand = cur.clone();
             cand.ops.remove(i);
-            if let Some((s, _)) = first_fail_fault(&cand, fail_at) {
+            if let Some((s, _)) = first_fail(&cand) {
                 if &s == sig {
                     cur = cand;
                     changed = true;
@@ -553,7 +605,7 @@ fn shrink(h: &History, fail_at: Option<u64>, sig: &Value) -> History {
             while cur.ops.len() > 1 {
                 let mut cand = cur.clone();
                 cand.ops.pop();
-                match first_fail_fault(&cand, fail_at) {
+                match first_fail(&cand) {
                     Some((s, _)) if &s == sig => cur = cand,
                     _ => break,
                 }
@@ -568,7 +620,7 @@ fn shrink(h: &History, fail_at: Option<u64>, sig: &Value) -> History {
         if cap_class(c) == cap_class(cur.init_cap) && c != cur.init_cap {
             let mut cand = cur.clone();
             cand.init_cap = c;
-            if let Some((s, _)) = first_fail_fault(&cand, fail_at) {
+            if let Some((s, _)) = first_fail(&cand) {
                 if &s == sig {
                     cur = cand;
                     break;
@@ -638,17 +690,23 @@ fn exec_all(ctx: &mut CaseCtx, h: &History, hash: u64) {
     ctx.progress("run sys");
     ctx.evaluation();
     let idx = |t: &HandleTable<Tracked, SysAllocator>, k: Handle| t[k].tag;
-    let info = run_history(h, SysAllocator, &|| 0, &|| 0, Some(&idx));
+    let info = run_history::<Tracked, _>(h, SysAllocator, &|| 0, &|| 0, Some(&idx));
     if let Some(f) = &info.fail {
         let sig = sig_of(f, h.init_cap, false);
         report(ctx, h, "sys", None, sig, format!("{} #{}: {} ({})", f.op, f.op_index, f.diverged, f.detail));
+    }
+    // (3b) a value type without drop glue
+    ctx.progress("run plain");
+    ctx.evaluation();
+    if let Some((sig, what)) = first_fail_plain(h) {
+        report(ctx, h, "plain", None, sig, what);
     }
     // (4) the allocator of a real VM
     ctx.progress("run vm-alloc");
     ctx.evaluation();
     if let Ok(vm) = cao_lang::prelude::Vm::new(()) {
         let proxy = vm.runtime_data.verif_view().memory.clone();
-        let info = run_history(h, proxy, &|| 0, &|| 0, None);
+        let info = run_history::<Tracked, _>(h, proxy, &|| 0, &|| 0, None);
         if let Some(f) = &info.fail {
             let sig = sig_of(f, h.init_cap, false);
             report(ctx, h, "vm", None, sig, format!("{} #{}: {} ({})", f.op, f.op_index, f.diverged, f.detail));
@@ -716,9 +774,14 @@ impl Check for C13 {
                     ctx.violation(sig, what, replay.clone());
                 }
             }
+            "plain" => {
+                if let Some((sig, what)) = first_fail_plain(&h) {
+                    ctx.violation(sig, what, replay.clone());
+                }
+            }
             "sys" => {
                 let idx = |t: &HandleTable<Tracked, SysAllocator>, k: Handle| t[k].tag;
-                let info = run_history(&h, SysAllocator, &|| 0, &|| 0, Some(&idx));
+                let info = run_history::<Tracked, _>(&h, SysAllocator, &|| 0, &|| 0, Some(&idx));
                 if let Some(f) = &info.fail {
                     ctx.violation(sig_of(f, h.init_cap, false), f.detail.clone(), replay.clone());
                 }
@@ -726,7 +789,7 @@ impl Check for C13 {
             _ => {
                 if let Ok(vm) = cao_lang::prelude::Vm::new(()) {
                     let proxy = vm.runtime_data.verif_view().memory.clone();
-                    let info = run_history(&h, proxy, &|| 0, &|| 0, None);
+                    let info = run_history::<Tracked, _>(&h, proxy, &|| 0, &|| 0, None);
                     if let Some(f) = &info.fail {
                         ctx.violation(sig_of(f, h.init_cap, false), f.detail.clone(), replay.clone());
                     } else {
@@ -750,8 +813,10 @@ impl Check for C13 {
         let alloc = replay.get("alloc").and_then(|a| a.as_str()).unwrap_or("fault").to_string();
         let fail_at = replay.get("fail_at").and_then(|a| a.as_u64());
         // only histories on the stub allocator are shrunk (the failure reproduces there)
-        let hm = if alloc == "fault" || first_fail_fault(&h, fail_at).map(|(s, _)| &s == sig).unwrap_or(false) {
-            shrink(&h, fail_at, sig)
+        let hm = if alloc == "plain" {
+            shrink(&h, None, sig, true)
+        } else if alloc == "fault" || first_fail_fault(&h, fail_at).map(|(s, _)| &s == sig).unwrap_or(false) {
+            shrink(&h, fail_at, sig, false)
         } else {
             h.clone()
         };
@@ -767,7 +832,7 @@ impl Check for C13 {
     }
     fn components(&self) -> Value {
         json!({"real": ["HandleTable (all operations)", "SysAllocator", "CaoLangAllocator/AllocProxy of a live VM"],
-               "stub": ["FaultAlloc (counting / failing allocator standing in for the system allocator)", "Tracked (drop-counting value type)"]})
+               "stub": ["FaultAlloc (counting / failing allocator standing in for the system allocator)", "Tracked (drop-counting value type)", "Plain (value type without drop glue)"]})
     }
     fn required_probes(&self, _tier: Tier) -> Vec<String> {
         vec![
